@@ -115,7 +115,16 @@ func (fe *FuncEnc) callCommon(v ssa.Value, c *ssa.CallCommon, st *State, args []
 			fe.usedAssumed[calleeName+" (assumed pure, no contract)"] = true
 			return
 		}
-		fe.havocAll(st, "call to "+calleeName+" (no contract)")
+		var roots []types.Type
+		if c.IsInvoke() {
+			roots = append(roots, c.Value.Type())
+		} else if _, isFn := c.Value.(*ssa.Function); !isFn && callee == nil {
+			roots = append(roots, c.Value.Type()) // dynamic call through a func value
+		}
+		for _, a := range c.Args {
+			roots = append(roots, a.Type())
+		}
+		fe.havocReachable(st, "call to "+calleeName+" (no contract)", roots)
 		res := fe.freshResults(st, sig, hint)
 		fe.setResults(v, sig, res)
 		return
@@ -150,7 +159,21 @@ func (fe *FuncEnc) applyContract(v ssa.Value, contract *FuncContract, sig *types
 	pre.pc = st.pc
 	// frame
 	if !contract.HasAssigns {
-		fe.havocAll(st, "call to "+short+" (contract without assigns)")
+		// no write frame given: the callee may write whatever its arguments can reach
+		var roots []types.Type
+		if callee != nil {
+			for _, p := range callee.Params {
+				roots = append(roots, p.Type())
+			}
+		} else {
+			if r := sig.Recv(); r != nil {
+				roots = append(roots, r.Type())
+			}
+			for i := 0; i < sig.Params().Len(); i++ {
+				roots = append(roots, sig.Params().At(i).Type())
+			}
+		}
+		fe.havocReachable(st, "call to "+short+" (contract without assigns)", roots)
 	} else if !contract.Pure {
 		envPre := fe.calleeEnv(pre, contract, callee, sig, paramNames, args)
 		locs := fe.assignLocs(envPre, contract.Assigns, contract.Where)
@@ -261,6 +284,7 @@ func (fe *FuncEnc) inlineCall(v ssa.Value, callee *ssa.Function, st *State, args
 	sub.guardedVals = fe.guardedVals
 	sub.ghostSorts = fe.ghostSorts
 	sub.blockTargets = map[*ssa.BasicBlock]map[string][]ssa.Value{}
+	sub.blockReach = map[*ssa.BasicBlock][]*reachInfo{}
 	sub.inlineDepth = fe.inlineDepth + 1
 	sub.inlineParent = fe
 	sub.inlineName = fe.fnName()
